@@ -426,6 +426,42 @@ type damage struct {
 	defs    string              // extra fragment definitions
 	desc    string
 	note    string // sub-kind for the evidence histogram
+	note2   string // second histogram key
+
+	// @skip/@include on the damaged node or around it: validation must reject
+	// the damage whatever the directive says.
+	dir      string                 // e.g. " @skip(if: true)"; "" = none
+	dirWhere int                    // dirOnNode, dirInline, dirSpread
+	varDecl  string                 // variable definitions for the operation, e.g. "($zzt: Boolean!, $zzf: Boolean!)"
+	vars     map[string]interface{} // variables passed to Parse
+}
+
+const (
+	dirNone   = iota
+	dirOnNode // on the damaged field / the damaged fragment itself
+	dirInline // on an inline fragment wrapped around the damaged node
+	dirSpread // on the spread of a named fragment wrapped around the damaged node
+)
+
+// wrap renders node (a field or fragment, text starting with a space) inside
+// an enclosing fragment on typ that carries the damage's directive.
+func (rd *renderer) wrap(typ, node string) string {
+	switch rd.dmg.dirWhere {
+	case dirInline:
+		return " ... on " + typ + rd.dmg.dir + " {" + node + " }"
+	case dirSpread:
+		rd.extraDef += " fragment ZZWrap on " + typ + " {" + node + " }"
+		return " ...ZZWrap" + rd.dmg.dir
+	}
+	return node
+}
+
+// onNode is the directive text to put on the damaged node itself.
+func (rd *renderer) onNode() string {
+	if rd.dmg != nil && rd.dmg.dirWhere == dirOnNode {
+		return rd.dmg.dir
+	}
+	return ""
 }
 
 // sites lists the places of a document where damage may be applied: every
@@ -511,7 +547,7 @@ func (doc *qDoc) reachable(skip *qField) map[string]bool {
 
 type renderer struct {
 	a        *advSchema
-	sb       strings.Builder
+	sb       *strings.Builder
 	dmg      *damage
 	extraDef string
 }
@@ -519,22 +555,35 @@ type renderer struct {
 func (rd *renderer) set(s *qSelSet) {
 	rd.sb.WriteString("{")
 	for _, f := range s.Fields {
+		damaged := rd.dmg != nil && rd.dmg.field == f && (rd.dmg.apply == dmgMissingSub || rd.dmg.apply == dmgSubOnLeaf)
+		out := rd.sb
+		if damaged && rd.dmg.dirWhere >= dirInline {
+			rd.sb = &strings.Builder{} // the damaged field is moved into an enclosing fragment
+		}
 		rd.sb.WriteString(" ")
 		if f.Alias != "" {
 			rd.sb.WriteString(f.Alias + ": ")
 		}
 		rd.sb.WriteString(f.Name + f.Args)
+		if damaged {
+			rd.sb.WriteString(rd.onNode())
+		}
 		if f.Sub != nil {
-			if rd.dmg != nil && rd.dmg.apply == dmgMissingSub && rd.dmg.field == f {
+			if damaged && rd.dmg.apply == dmgMissingSub {
 				rd.dmg.desc += fmt.Sprintf("sub-selection of %s.%s (%s) removed", s.Scope, f.Name, f.Type)
-				continue
+			} else {
+				rd.sb.WriteString(" ")
+				rd.set(f.Sub)
 			}
-			rd.sb.WriteString(" ")
-			rd.set(f.Sub)
-		} else if rd.dmg != nil && rd.dmg.apply == dmgSubOnLeaf && rd.dmg.field == f {
+		} else if damaged && rd.dmg.apply == dmgSubOnLeaf {
 			inner := []string{"{ __typename }", "{ zzNoSuchField }", "{ x: __typename }"}[rd.dmg.variant%3]
 			rd.sb.WriteString(" " + inner)
 			rd.dmg.desc += fmt.Sprintf("%s added under leaf %s.%s (%s)", inner, s.Scope, f.Name, f.Type)
+		}
+		if out != rd.sb {
+			node := rd.sb.String()
+			rd.sb = out
+			rd.sb.WriteString(rd.wrap(s.Scope, node))
 		}
 	}
 	for _, fr := range s.Frags {
@@ -548,8 +597,13 @@ func (rd *renderer) set(s *qSelSet) {
 	if rd.dmg != nil && rd.dmg.set == s {
 		switch rd.dmg.apply {
 		case dmgUnknownField:
-			txt := []string{"zzNoSuchField", "zzNoSuchField { __typename }", "zzNoSuchField(x: 1)", "zq: zzNoSuchField"}[rd.dmg.variant%4]
-			rd.sb.WriteString(" " + txt)
+			v := [][2]string{{"zzNoSuchField", ""}, {"zzNoSuchField", " { __typename }"}, {"zzNoSuchField(x: 1)", ""}, {"zq: zzNoSuchField", ""}}[rd.dmg.variant%4]
+			txt := v[0] + rd.onNode() + v[1]
+			on := s.Scope
+			if t := rd.a.Types[s.Scope]; t != nil && t.Kind == "UNION" && len(t.possible) > 0 && rd.dmg.variant >= 6 {
+				on = t.possible[rd.dmg.variant%len(t.possible)] // enclosing fragment on a member
+			}
+			rd.sb.WriteString(rd.wrap(on, " "+txt))
 			rd.dmg.desc += fmt.Sprintf("%q added to selection set on %s", txt, s.Scope)
 		case dmgUnknownInFragment:
 			on := s.Scope
@@ -559,12 +613,14 @@ func (rd *renderer) set(s *qSelSet) {
 					on = s.Scope // fragment on the union type itself
 				}
 			}
+			var node string
 			if rd.dmg.variant%2 == 0 {
-				rd.sb.WriteString(" ... on " + on + " { zzNoSuchField }")
+				node = " ... on " + on + rd.onNode() + " { zzNoSuchField }"
 			} else {
-				rd.sb.WriteString(" ...ZZDamage")
-				rd.extraDef = " fragment ZZDamage on " + on + " { zzNoSuchField }"
+				node = " ...ZZDamage" + rd.onNode()
+				rd.extraDef += " fragment ZZDamage on " + on + " { zzNoSuchField }"
 			}
+			rd.sb.WriteString(rd.wrap(s.Scope, node))
 			rd.dmg.desc += fmt.Sprintf("fragment on %s selecting zzNoSuchField added to selection set on %s", on, s.Scope)
 		}
 	}
@@ -579,10 +635,13 @@ func (rd *renderer) set(s *qSelSet) {
 // render writes the document (only the fragment definitions that are still
 // spread somewhere); with dmg != nil exactly one damage is applied.
 func render(a *advSchema, doc *qDoc, dmg *damage) string {
-	rd := &renderer{a: a, dmg: dmg}
+	rd := &renderer{a: a, dmg: dmg, sb: &strings.Builder{}}
 	rd.sb.WriteString(doc.Kind + " ")
 	if doc.Op != "" {
 		rd.sb.WriteString(doc.Op + " ")
+	}
+	if dmg != nil && dmg.varDecl != "" {
+		rd.sb.WriteString(dmg.varDecl + " ")
 	}
 	var skip *qField
 	if dmg != nil && dmg.apply == dmgMissingSub {
@@ -761,5 +820,42 @@ func chooseDamage(r *rand.Rand, a *advSchema, doc *qDoc) *damage {
 	case dmgMissingSub:
 		d.field = st.comps[r.Intn(len(st.comps))]
 	}
+	if r.Intn(5) < 2 {
+		addDirective(r, d)
+	}
 	return d
+}
+
+// addDirective puts @skip/@include on the damaged node or on a fragment
+// wrapped around it: excluding (2 of 3) or including, with literal or
+// variable conditions (variables passed to Parse or defaulted).
+func addDirective(r *rand.Rand, d *damage) {
+	tv, fv := "true", "false"
+	mode := "literal"
+	switch r.Intn(3) {
+	case 1:
+		tv, fv, mode = "$zzt", "$zzf", "variable"
+		d.varDecl = "($zzt: Boolean!, $zzf: Boolean!)"
+		d.vars = map[string]interface{}{"zzt": true, "zzf": false}
+	case 2:
+		tv, fv, mode = "$zzt", "$zzf", "defaulted_variable"
+		d.varDecl = "($zzt: Boolean = true, $zzf: Boolean = false)"
+	}
+	var what string
+	if r.Intn(3) != 0 {
+		what = "excluded"
+		d.dir = []string{" @skip(if: " + tv + ")", " @include(if: " + fv + ")", " @skip(if: " + tv + ") @include(if: " + tv + ")",
+			" @include(if: " + fv + ") @skip(if: " + fv + ")"}[r.Intn(4)]
+	} else {
+		what = "included"
+		d.dir = []string{" @skip(if: " + fv + ")", " @include(if: " + tv + ")", " @include(if: " + tv + ") @skip(if: " + fv + ")"}[r.Intn(3)]
+	}
+	d.dirWhere = dirOnNode + r.Intn(3)
+	where := []string{"", "on_node", "on_enclosing_inline_fragment", "on_enclosing_named_spread"}[d.dirWhere]
+	if d.note != "" {
+		d.note += ":"
+	}
+	d.note += "directive:" + what + ":" + where
+	d.note2 = "directive_condition:" + mode
+	d.desc = "with" + d.dir + " " + strings.ReplaceAll(where, "_", " ") + " (" + mode + "): "
 }
